@@ -222,25 +222,23 @@ func c07Key(rp c07Rep) string {
 	return string(b)
 }
 
-// class predicate of known finding C07-crlf-comment-attachment: the file has CRLF line endings and the inserted comment is
-// a line of its own directly below a flow-style rule line (`  - {...}`): yaml.v3 then makes it the foot comment of that
-// flow mapping, so it acts on the rule above
-func c07CRLFAfterFlow(t c07Trial) bool {
-	if !t.CRLF || t.Inserted < 2 {
-		return false
-	}
-	lines := strings.Split(strings.ReplaceAll(t.After, "\r\n", "\n"), "\n")
-	if t.Inserted-2 >= len(lines) {
-		return false
-	}
-	for k := t.Inserted - 2; k >= 0; k-- { // skip comment lines between the flow rule and the inserted line
-		l := strings.TrimSpace(lines[k])
-		if strings.HasPrefix(l, "#") {
-			continue
+type c07FormPl struct {
+	form string
+	pl   int
+}
+
+// one random placement per form; all three placements per form for the fixed regression files
+func c07FormPlacements(r *rand.Rand, forms []string, all bool) (out []c07FormPl) {
+	for _, f := range forms {
+		if all {
+			for pl := 0; pl < 3; pl++ {
+				out = append(out, c07FormPl{f, pl})
+			}
+		} else {
+			out = append(out, c07FormPl{f, r.Intn(3)})
 		}
-		return strings.HasPrefix(l, "- {")
 	}
-	return false
+	return out
 }
 
 func c07BlankOwner(key string) string {
@@ -283,15 +281,30 @@ func c07Oracle(r *rand.Rand, rep *runReport, nfiles int) {
 	base := filepath.Join(wd, "oracle")
 	_ = os.RemoveAll(base)
 	type fileRun struct {
-		f    c07BaseFile
-		reps []c07Rep
-		err  string
-		crlf bool // the file (before and after) uses CRLF line endings
+		f      c07BaseFile
+		reps   []c07Rep
+		err    string
+		crlf   bool // the file (before and after) uses CRLF line endings
+		corpus bool // fixed regression file: every placement is tried for every form
 	}
 	files := make([]fileRun, nfiles)
 	for i := range files {
 		files[i].f = c07GenFile(r)
-		files[i].crlf = r.Intn(5) == 0
+		files[i].crlf = r.Intn(4) == 0 // CRLF files at full strength (fix 670b316: the yaml decoder gets LF line endings)
+	}
+	// regression files (corpus/C07/crlf-attachment, seeds C07-3/C07-4 layouts): flow-style rule followed by a block rule, with and
+	// without a comment above, CRLF and LF; an expired snooze ahead of the insertion points
+	for k, crlf := range []bool{true, false} {
+		if k >= nfiles {
+			break
+		}
+		files[k].f = c07BaseFile{
+			Lines: []string{"groups:", "- name: g0", "  rules:", "  # legacy one-liner", "  - {alert: Alert0, expr: up}", "  - alert: Alert1",
+				"    # pint snooze 2000-01-01 alerts/comparison", "    expr: up", "    for: 5m", "    labels:", "      team: a"},
+			Rules: []c07Rule{{First: 5, Last: 5, PlainLines: []int{5}}, {First: 6, Last: 11, FieldLines: []int{6, 8, 9, 10}, PlainLines: []int{6, 8, 9, 10, 11}}},
+		}
+		files[k].crlf = crlf
+		files[k].corpus = true
 	}
 	parallel(nfiles, 16, func(i int) {
 		content := strings.Join(files[i].f.Lines, "\n") + "\n"
@@ -332,7 +345,8 @@ func c07Oracle(r *rand.Rand, rep *runReport, nfiles int) {
 					// other comment types and the partial promql/series(<selector>) forms must remove nothing
 					forms = append(forms, "other-rule/set", "other-rule/owner", "other-partial-series", "file/owner-other")
 				}
-				for _, form := range forms {
+				for _, fp := range c07FormPlacements(r, forms, fr.corpus) {
+					form := fp.form
 					var text string
 					switch form {
 					case "other-rule/set":
@@ -377,7 +391,7 @@ func c07Oracle(r *rand.Rand, rep *runReport, nfiles int) {
 					unlockedOnly := func(b c07Rep) bool { // problems of the unlocked block of this reporter
 						return b.Reporter == rp.Reporter && !c07FromLocked(b)
 					}
-					switch pl := r.Intn(3); {
+					switch pl := fp.pl; {
 					case fileLevel && pl == 0:
 						t.Placement = "top-of-file"
 						t.Inserted = 1
@@ -489,11 +503,7 @@ func c07Oracle(r *rand.Rand, rep *runReport, nfiles int) {
 		if strings.Join(t.Got, "\n") != strings.Join(t.Expected, "\n") {
 			what := fmt.Sprintf("C07: inserting `%s` (%s, %s) did not remove exactly the targeted problems: expected %d reports, got %d",
 				t.Comment, t.Form, t.Placement, len(t.Expected), len(t.Got))
-			if c07CRLFAfterFlow(t) {
-				rep.failKnown(fmt.Sprintf("oracle-%d", i), what+" [CRLF file, comment line directly below a flow-style rule]", t, "C07-crlf-comment-attachment")
-			} else {
-				rep.fail(fmt.Sprintf("oracle-%d", i), what, t)
-			}
+			rep.fail(fmt.Sprintf("oracle-%d", i), what, t)
 		} else if i%37 == 0 {
 			rep.sample(map[string]any{"comment": t.Comment, "placement": t.Placement, "before": len(t.Before), "after": len(t.Got)})
 		}
